@@ -582,7 +582,7 @@ pub fn h_c19_embedded() {
     let n_math = xot.add_name_ns("math", mml);
     let n_mi = xot.add_name_ns("mi", mml);
     let n_p = xot.add_name_ns("p", xh);
-    let shape = sym::choose("shape", 6);
+    let shape = sym::choose("shape", 8);
     let e_svg = xot.new_element(n_svg);
     xot.append(div, e_svg).unwrap();
     let circle = xot.new_element(n_circle);
@@ -638,6 +638,35 @@ pub fn h_c19_embedded() {
             let s2 = xot.new_element(n_svg);
             xot.append(x, s2).unwrap();
             cdata.push(n_x);
+        }
+        6 => {
+            // XHTML void elements (prefixed / with their own declaration) inside SVG: the scopes they
+            // open must be closed again although they have no end tag
+            let n_fo = xot.add_name_ns("foreignObject", svg);
+            let n_br = xot.add_name_ns("br", xh);
+            let n_img = xot.add_name_ns("IMG", xh);
+            let fo = xot.new_element(n_fo);
+            xot.append(circle, fo).unwrap();
+            let br = xot.new_element(n_br);
+            xot.append(fo, br).unwrap();
+            let img = xot.new_element(n_img);
+            let empty = xot.empty_prefix();
+            xot.set_namespace(img, empty, xh);
+            xot.append(fo, img).unwrap();
+            xot.append_text(fo, &t).unwrap();
+            let rect = xot.new_element(n_rect);
+            xot.append(e_svg, rect).unwrap();
+        }
+        7 => {
+            // a prefixed XHTML void element followed by XHTML and SVG siblings
+            let n_br = xot.add_name_ns("Br", xh);
+            let br = xot.new_element(n_br);
+            xot.append(div, br).unwrap();
+            let p = xot.new_element(n_p);
+            xot.append(div, p).unwrap();
+            xot.append_text(p, &t).unwrap();
+            let s2 = xot.new_element(n_svg);
+            xot.append(div, s2).unwrap();
         }
         _ => {
             // foreign XML as default namespace, HTML and SVG below it
